@@ -12,7 +12,7 @@ Require Import Htp.Spec.SWire Htp.Spec.SConnp Htp.Proof.PWire Htp.Proof.PWireHdr
 Require Import Htp.Proof.PWireRun Htp.Proof.PWirePres Htp.Proof.PWireGlue Htp.Proof.PSeg Htp.Proof.PSegLine Htp.Proof.PSegHdr Htp.Proof.PSegGen Htp.Proof.PSegRun.
 Require Import Htp.Proof.PSegFold Htp.Proof.PSegPipe Htp.Proof.PSegRes Htp.Proof.PSegResLine Htp.Proof.PSegResHdr Htp.Proof.PSegResGen Htp.Proof.PSegResRun Htp.Proof.PSegResThm Htp.Proof.PPairThm.
 Require Import Htp.Proof.PReq Htp.Proof.PConnp.
-Require Import Htp.Proof.PTunBase Htp.Proof.PTunSeg Htp.Proof.PTunSegMid Htp.Proof.PTunRes Htp.Proof.PTunResTail Htp.Proof.PTunResFin.
+Require Import Htp.Proof.PTunBase Htp.Proof.PTunSeg Htp.Proof.PTunSegLine Htp.Proof.PTunSegMid Htp.Proof.PTunRes Htp.Proof.PTunResTail Htp.Proof.PTunResFin.
 Require Import Htp.Proof.PTunReq Htp.Proof.PTunProbe Htp.Proof.PTunConnR.
 Local Open Scope Z_scope.
 
@@ -23,25 +23,25 @@ Definition tn_2xx (rsp : wr_response) : bool := (200 <=? wr_status_value (wp_sta
 
 (* ---- the parser after htp_connp_open ---- *)
 Definition tn_c0 : connp := tn_fin (connp_open connp_new).
-Definition tn_a0 : tg_aux := mk_tg_aux 0%N 0%nat (tn_rs tn_c0).
+Definition tn_a0 : tg_aux := mk_tg_aux 0%N 0%nat (tn_rs tn_c0) 0.
 Lemma tn_c0_facts : tg_imid tn_c0 [] tn_a0 /\ c_out_status tn_c0 = c_HTP_STREAM_OPEN /\ tn_stable (c_in tn_c0) /\ tn_stable (c_out tn_c0) /\
   c_out_tx (tn_rs tn_c0) = None /\ c_out_state (tn_rs tn_c0) = RES_IDLE /\ k_buf (c_out (tn_rs tn_c0)) = None /\ k_header (c_out (tn_rs tn_c0)) = None /\
   k_receiver_hook (c_out (tn_rs tn_c0)) = None /\ c_out_data_other_at_tx_end (tn_rs tn_c0) = false.
 Proof.
-  split; [constructor; try reflexivity; [left; left; reflexivity|split; reflexivity]|]. split; [reflexivity|].
+  split; [constructor; try reflexivity; [left; left; reflexivity|repeat split]|]. split; [reflexivity|].
   destruct (tn_fin_stable (connp_open connp_new)) as [A B]. split; [exact A|]. split; [exact B|]. repeat split.
 Qed.
 Lemma tn_open_step cb g : cp_step cb g connp_new OpOpen = (tn_c0, snd (finish_call (connp_open connp_new) (-1) 0 false)).
 Proof. reflexivity. Qed.
 
 (* ---- from the request phase to the response phase ---- *)
-Lemma tn_wait_to_res g rq fl c1 : tn_waitw (mk_tg_world [] tn_a0) c1 (tn_tw g rq fl) -> c_out_status c1 = c_HTP_STREAM_OPEN -> tn_stable (c_in c1) ->
-  tc_wfr (tn_rq c1) /\ tr_rest (tc_w (tn_rq c1)) c1 (tn_tw g rq fl).
+Lemma tn_wait_to_res g rq fl c1 : tn_waitw (mk_tg_world [] (tg_next_flags [] tn_a0)) c1 (tn_tw g rq fl) -> c_out_status c1 = c_HTP_STREAM_OPEN -> tn_stable (c_in c1) ->
+  tc_wfr (tn_rq c1) /\ tr_rest (tc_w (tn_rq c1)) c1 (tn_tw g rq fl) /\ c_in_content_length c1 = -1.
 Proof.
-  intros [A1 A2 A3 A4 A5 A6 A7 A8 A9 A10 A11] So Sc. destruct A11 as [A11 A12]. cbn [gw_done gw_aux ax_onext ax_rs ax_flags tn_a0 length app] in *.
+  intros [A1 A2 A3 A4 A5 A6 A7 A8 A9 A10 A11] So Sc. destruct A11 as (A11 & A12 & A13). cbn [gw_done gw_aux ax_onext ax_rs ax_flags ax_cl tg_next_flags tn_a0 length app] in *.
   destruct tn_c0_facts as (_ & _ & _ & _ & F1 & F2 & F3 & F4 & F5 & F6).
   destruct (tn_rs_proj _ _ A12) as (R1 & R2 & R3 & R4 & R5).
-  split.
+  split; [|split; [|exact A13]].
   - destruct (tn_rq_p c1) as (P1 & P2 & P3 & P4 & P5). constructor; rewrite ?P1, ?P2, ?P3, ?P4, ?P5; assumption.
   - constructor.
     + left. exact So.
@@ -57,13 +57,13 @@ Proof.
 Qed.
 
 (* ---- from the response phase to the probe ---- *)
-Definition tn_w2 (c2 : connp) : tg_world := mk_tg_world [] (mk_tg_aux (c_conn_flags c2) 1%nat (tn_rs c2)).
+Definition tn_w2 (c2 : connp) : tg_world := mk_tg_world [] (mk_tg_aux (c_conn_flags c2) 1%nat (tn_rs c2) (c_in_content_length c2)).
 Lemma tn_res_to_wait c2 t : tc_wfr (tn_rq c2) -> tr_after (tc_w (tn_rq c2)) c2 (Some t) -> tn_waitw (tn_w2 c2) c2 t.
 Proof.
   intros [A1 A2 A3 A4 A5 A6 A7 A8] [B1 B2 B3 B4 B5 B6 B7 B8 B9 B10 B11].
   destruct (tn_rq_p c2) as (P1 & P2 & P3 & P4 & P5). rewrite P1 in A6, A7, A8. rewrite P2 in A1. rewrite P3 in A2. rewrite P4 in A5. rewrite P5 in A3.
   constructor; cbn [tn_w2 gw_done gw_aux ax_flags ax_onext ax_rs length app]; try assumption; try reflexivity.
-  split; [exact B7|reflexivity].
+  split; [exact B7|split; reflexivity].
 Qed.
 
 (* ---- observations ---- *)
@@ -91,7 +91,7 @@ Definition tn_h1_payload (h : tn_h1) : bytes := concat (h_ppre h) ++ h_u1 h.
 Definition tn_h1_ok (g : cfg) (rq : wr_request) (rsp : wr_response) (cuts : list (list bytes)) (h : tn_h1) : Prop :=
   Forall (fun x : bytes => x <> []) (h_qpre h) /\ h_qlast h <> [] /\
   concat (h_qpre h) ++ h_qlast h = wr_request_wire rq ++ h_glue h /\ (length (concat (h_qpre h)) < length (wr_request_wire rq))%nat /\
-  tc_items_ne (h_items h) /\ concat (map snd (h_items h)) = sr_wire rsp cuts [] /\ tc_refs_ok (sr_lines rsp cuts) (h_items h) /\
+  tc_items_ne (h_items h) /\ concat (map snd (h_items h)) = sr_wire rsp cuts [] /\ tc_refs_ok (sr_lines rsp cuts) [] (h_items h) /\
   Forall (fun x : bytes => x <> []) (h_ppre h) /\
   tn_nostop (tn_h1_payload h) = true /\ tn_stopb (h_b h) = true /\ tn_probe_http (tn_h1_payload h) = false /\
   (length (tn_h1_payload h) <= g_field_limit_hard g)%nat /\
@@ -144,15 +144,15 @@ Proof.
   destruct (tn_run_stable cb g opsA tn_c0 Si0 So0) as [Si1 So1]. rewrite E1 in Si1, So1.
   destruct (tq_tw_facts g Hsp rq Hq fl) as (M0 & Rp0 & Z0 & Pg0 & Rep0).
   set (t0 := tn_tw g rq fl) in *.
-  destruct (tn_wait_to_res g rq fl c1 W1 O1 Si1) as [Wf1 Rest1]. fold t0 in Rest1.
+  destruct (tn_wait_to_res g rq fl c1 W1 O1 Si1) as (Wf1 & Rest1 & _). fold t0 in Rest1.
   (* the answer *)
   assert (Hrp : t_response_progress t0 <= c_HTP_RESPONSE_LINE) by (rewrite Rp0; vm_compute; discriminate).
   assert (Hrq : (t_request_progress t0 =? c_HTP_REQUEST_COMPLETE) = false) by (rewrite Pg0; reflexivity).
   rewrite <- (sr_p11_th0 t0 (sr_line0 rsp)) in Hfit.
-  assert (Ewr : sr_wire rsp cuts [] = tc_wire ps ss rr ls) by (unfold sr_wire, tc_wire, sr_line0; rewrite <- !app_assoc; reflexivity).
-  assert (B1 : tc_betw g t0 ps ss rr ls c1 (tc_wire ps ss rr ls)) by (apply CB_idle; [exact Wf1|exact Rest1|reflexivity]).
-  assert (Hne1 : tc_wire ps ss rr ls <> []) by (unfold tc_wire; intro E; apply app_eq_nil in E; destruct E as [E _]; apply app_eq_nil in E; destruct E as [_ E]; discriminate).
-  destruct (tc_phase cb g Hcb t0 Z0 M0 Hrp Hrq ps ss rr ls Wl Okl Hnp H2a H2b Hl0 Hfit (h_items h) c1 _ B1 Hne1 ltac:(rewrite Ic; exact Ewr) Ia Ir)
+  assert (Ewr : sr_wire rsp cuts [] = tc_wire ps ss rr ls []) by (unfold sr_wire, tc_wire, sr_line0; rewrite <- !app_assoc; reflexivity).
+  assert (B1 : tc_betw g t0 ps ss rr ls [] c1 (tc_wire ps ss rr ls [])) by (apply CB_idle; [exact Wf1|exact Rest1|reflexivity]).
+  assert (Hne1 : tc_wire ps ss rr ls [] <> []) by (unfold tc_wire; intro E; apply app_eq_nil in E; destruct E as [E _]; apply app_eq_nil in E; destruct E as [_ E]; discriminate).
+  destruct (tc_phase cb g Hcb t0 Z0 M0 Hrp Hrq ps ss rr ls Wl Okl Hnp H2a H2b Hl0 Hfit [] eq_refl (h_items h) c1 _ B1 Hne1 ltac:(rewrite Ic; exact Ewr) Ia Ir)
     as (Wf2 & A2 & Ev2 & R2 & Q2).
   set (opsB := tc_ops (h_items h)) in *. set (c2 := fst (cp_run cb g c1 opsB)) in *.
   destruct (tn_run_stable cb g opsB c1 Si1 So1) as [Si2 So2]. fold c2 in Si2, So2.
